@@ -242,6 +242,18 @@ func (c Isolation) NewWorker(stats *engine.Stats) (engine.Worker, error) {
 		}
 		// state that needs the cross-chain paths (judged there) is seeded through the keeper
 		p.K.AppendSlashAck(st.Ctx, id, "slashack-"+id)
+	}
+	if err := blk(); err != nil {
+		return nil, err
+	}
+	for _, id := range []string{"10", "1"} {
+		if len(p.K.GetPendingVSCPackets(st.Ctx, id)) == 0 {
+			return nil, fmt.Errorf("fixture: consumer %s has no queued VSC packet", id)
+		}
+	}
+	// reward credits (seeded after the last prefix block so that they are still unpaid in the root state),
+	// backed by coins in the consumer rewards pool so that payouts really happen
+	for _, id := range []string{"10", "1"} {
 		p.K.SetConsumerRewardsAllocationByDenom(st.Ctx, id, ibcDenom(id), providertypes.ConsumerRewardsAllocation{
 			Rewards: sdk.NewDecCoins(sdk.NewDecCoinFromDec(ibcDenom(id), math.LegacyNewDec(100)))})
 		// ... and a credit in the denom only the *other* consumer allow-lists (it must stay untouched)
@@ -257,14 +269,6 @@ func (c Isolation) NewWorker(stats *engine.Stats) (engine.Worker, error) {
 		}
 		if err := p.PApp.BankKeeper.SendCoinsFromModuleToModule(st.Ctx, minttypes.ModuleName, providertypes.ConsumerRewardsPool, coins); err != nil {
 			return nil, err
-		}
-	}
-	if err := blk(); err != nil {
-		return nil, err
-	}
-	for _, id := range []string{"10", "1"} {
-		if len(p.K.GetPendingVSCPackets(st.Ctx, id)) == 0 {
-			return nil, fmt.Errorf("fixture: consumer %s has no queued VSC packet", id)
 		}
 	}
 	w.root = &isoNode{S: st, Sh: st}
